@@ -70,7 +70,7 @@ def run(ctx, rep):
         segs = emit_value(I, obj, ty)
         exp = expected(I, f, prod, P)
         if I.tops: rep.undecided('production', subj, I.tops, cb['sp']); continue
-        ok, why = segs_equal(segs, exp)
+        ok, why = segs_equal(segs, exp, [c for c, _ in I.st.facts])
         n += 1
         rep.ob('production', subj, ok, '%s: %s' % (subj, why), sp=f.bodies[d]['sp'], detail={'emitted': show_segs(segs), 'specified': show_segs(exp)})
         if ty != 'aml::ResourceTemplate':
